@@ -361,3 +361,31 @@ META["C12"] = dict(
     },
     assumptions=["a parameter named 'config' is not generated (auto_cli reserves that option name)"],
 )
+
+META["C09"] = dict(
+    title="A parser's answers do not depend on what it was asked before",
+    level="exploration",
+    level_text="History differential: operation histories (length<=6 quick / <=12 thorough) over parse_args (valid, failing, "
+    "--help, --print_config[=flags], --<class>.help), parse_object / parse_string (with and without defaults), parse_env, "
+    "get_defaults, dump, validate, instantiate_classes, parse_args(namespace=...) and operations on another parser of the same "
+    "process, on parsers with config arguments, subclass arguments with lazy defaults (one name a prefix of another), "
+    "Optional classes, dataclasses, class groups, links, subcommands and default config files, in both exit_on_error modes; "
+    "every step's outcome on the long-lived parser is compared with the same step on a freshly built identical parser.",
+    level_note="Both sides run the same code, so wording changes cannot alarm. Process-global contamination that also affects a "
+    "fresh parser of the same process is only visible from the step at which the two sides diverge; a forked pristine "
+    "reference is not used. Inputs for dump/validate/instantiate come from a fresh parser so both sides get equal arguments.",
+    shards=g(4, 16),
+    budget=g(45, 300),
+    technique="step-by-step differential of a reused parser against freshly built identical parsers over generated operation histories",
+    rule="a case is (parser variant, exit_on_error, the operation history); distinct by hash; non-trivial = history of >=2 steps.",
+    gates={
+        "mon.steps_compared": g(1500, 20000),
+        "st.failing_steps": g(400, 5000),
+        "st.op.parse_args": g(300, 3000), "st.op.parse_args-fail": g(200, 2000), "st.op.print_config": g(30, 300), "st.op.print_config-fail": g(20, 200),
+        "st.op.help": g(30, 300), "st.op.parse_object": g(50, 500), "st.op.parse_string": g(30, 300), "st.op.parse_env": g(30, 300),
+        "st.op.get_defaults": g(30, 300), "st.op.dump": g(30, 300), "st.op.validate": g(20, 200), "st.op.instantiate": g(20, 200),
+        "st.op.other_parser-fail": g(10, 100),
+        "st.pair.parse_args>parse_object": g(10, 100), "st.pair.parse_args>parse_string": g(10, 100), "st.pair.print_config>parse_args": g(10, 100),
+    },
+    assumptions=["histories that deliberately mutate the parser (add_argument, set_defaults, link_arguments) are not generated"],
+)
